@@ -11,6 +11,14 @@ use std::time::Instant;
 
 pub const VERIF_DIR: &str = "/verif";
 
+/// property currently being explored (for the hang watchdog)
+pub static CURRENT_PROPERTY: std::sync::OnceLock<String> = std::sync::OnceLock::new();
+
+/// a single case running longer than this is reported as a hang (violation of termination)
+pub fn hang_limit_s() -> u64 {
+    std::env::var("VERIF_HANG_S").ok().and_then(|s| s.parse().ok()).unwrap_or(120)
+}
+
 #[derive(Clone, Debug)]
 pub struct Violation {
     /// stable key used for known-finding matching ("what fails", coarse)
@@ -207,8 +215,13 @@ pub fn run_space(space: &dyn Space, deadline: Option<Instant>) -> SpaceReport {
     let viols: Mutex<Vec<(u64, Violation)>> = Mutex::new(vec![]);
     let nt = if space.serial() { 1 } else { nthreads() };
     let chunk = std::cmp::max(1, std::cmp::min(4096, size / (nt as u64 * 64) + 1));
+    // per-worker "current case" slots for the hang watchdog: (case id + 1, start in ms since t0)
+    let slots: Vec<(AtomicU64, AtomicU64)> = (0..nt).map(|_| (AtomicU64::new(0), AtomicU64::new(0))).collect();
+    let next_slot = AtomicU64::new(0);
+    let done = AtomicBool::new(false);
 
     let worker = || {
+        let my_slot = next_slot.fetch_add(1, Ordering::Relaxed) as usize % nt;
         let mut ctx = Ctx::default();
         let mut mine = 0u64;
         'outer: loop {
@@ -221,6 +234,8 @@ pub fn run_space(space: &dyn Space, deadline: Option<Instant>) -> SpaceReport {
             }
             let hi = std::cmp::min(size, lo + chunk);
             for id in lo..hi {
+                slots[my_slot].1.store(t0.elapsed().as_millis() as u64, Ordering::Relaxed);
+                slots[my_slot].0.store(id + 1, Ordering::Relaxed);
                 let r = match guarded(|| space.run(id, &mut ctx)) {
                     Ok(r) => r,
                     Err(p) => Err(Violation::new(
@@ -244,19 +259,46 @@ pub fn run_space(space: &dyn Space, deadline: Option<Instant>) -> SpaceReport {
                 }
             }
         }
+        slots[my_slot].0.store(0, Ordering::Relaxed);
         executed.fetch_add(mine, Ordering::Relaxed);
         merged.lock().unwrap().merge(&ctx);
     };
 
-    if nt == 1 {
-        worker();
-    } else {
-        std::thread::scope(|s| {
-            for _ in 0..nt {
-                s.spawn(worker);
+    let watchdog = || {
+        let limit_ms = hang_limit_s() * 1000;
+        while !done.load(Ordering::Relaxed) {
+            std::thread::sleep(std::time::Duration::from_millis(250));
+            let now = t0.elapsed().as_millis() as u64;
+            for (cur, start) in slots.iter() {
+                let c = cur.load(Ordering::Relaxed);
+                let st = start.load(Ordering::Relaxed);
+                if c != 0 && now.saturating_sub(st) > limit_ms && cur.load(Ordering::Relaxed) == c {
+                    // a case that does not return: termination is part of what is being checked
+                    let id = c - 1;
+                    let prop = CURRENT_PROPERTY.get().cloned().unwrap_or_else(|| "?".into());
+                    let v = Violation::new("hang", format!("case did not return within {} s", limit_ms / 1000));
+                    let path = write_replay(&prop, &space.name(), id, space.describe(id), &v);
+                    println!("VIOLATION property={} replay={}", prop, path);
+                    println!("  space={} case={} key=hang :: case did not return within {} s (explorer aborted)", space.name(), id, limit_ms / 1000);
+                    std::process::exit(1);
+                }
             }
-        });
-    }
+        }
+    };
+
+    std::thread::scope(|s| {
+        let wd = s.spawn(watchdog);
+        if nt == 1 {
+            worker();
+        } else {
+            let hs: Vec<_> = (0..nt).map(|_| s.spawn(worker)).collect();
+            for h in hs {
+                let _ = h.join();
+            }
+        }
+        done.store(true, Ordering::Relaxed);
+        let _ = wd.join();
+    });
 
     let executed = executed.load(Ordering::Relaxed);
     let mut violations = viols.into_inner().unwrap();
@@ -298,6 +340,7 @@ pub struct PropRun {
 
 impl PropRun {
     pub fn new(property: &str, tier: &str) -> Self {
+        let _ = CURRENT_PROPERTY.set(property.to_string());
         let seed = std::env::var("VERIF_SEED")
             .ok()
             .and_then(|s| s.parse().ok())
